@@ -105,7 +105,13 @@ def check(case):
     return PASS(nontrivial, labels)
 
 
+def strat_long(tier):
+    """Few but large cases: long traces and deep ring buffers (bounds up to 20), up to five variables."""
+    return dt_cases(_profile(tier, max_depth=3, max_bound=20, nvars=5), max_n=48, min_n=16)
+
+
 LANES = [
+    Lane('long', strat_long, check, 300, 5000, std_candidates),
     Lane('main', strat_main, check, 5000, 60000, std_candidates),
     Lane('dup', strat_dup, check, 3000, 30000, std_candidates),
     Lane('deep', strat_deep, check, 1500, 20000, std_candidates),
